@@ -221,9 +221,21 @@ def _const_truth(e: ast.AST) -> bool | None:
     return None
 
 
+class _FoldExpr(ast.NodeTransformer):
+    """`a if <constant> else b` -> the live arm."""
+
+    def visit_IfExp(self, node: ast.IfExp):  # noqa: N802
+        self.generic_visit(node)
+        v = _const_truth(node.test)
+        if v is None:
+            return node
+        return node.body if v else node.orelse
+
+
 def _fold(stmts: list[ast.stmt]) -> list[ast.stmt]:
     """Drop the dead arm of `if <constant>` (left behind when a constant argument was substituted for a parameter)."""
     out: list[ast.stmt] = []
+    stmts = [_FoldExpr().visit(st) for st in stmts]
     for st in stmts:
         for field in ("body", "orelse", "finalbody"):
             sub = getattr(st, field, None)
